@@ -14,7 +14,8 @@ import os
 import numpy as np
 from hypothesis import strategies as st
 
-from vp.pbt import SubCheck, allclose, maxdiff, seed_library_rngs
+from vp.pbt import (SubCheck, HarnessError, allclose, maxdiff,
+                    seed_library_rngs)
 from vp.gen import graphs as G
 
 PROPERTY = "C01"
@@ -121,6 +122,11 @@ def run_history(family, case, rec):
         except Exception as e:  # pylint: disable=broad-except
             b, eb = None, e
         clause = "%s_after_%s" % (name, last_mut)
+        if isinstance(ea, AttributeError) and isinstance(eb, AttributeError) \
+                and "object has no attribute '%s'" % name.lstrip(".") in \
+                str(ea):
+            raise HarnessError("query %s does not exist on %s" % (
+                name, family.name))
         if ea is not None or eb is not None:
             if type(ea) is not type(eb):
                 rec.fail(clause + "__raises_differ",
@@ -456,8 +462,8 @@ class ClimateFamily(Family):
             self.queries["." + a] = attr(a)
         self.queries["correlation_distance_weighted_closeness"] = \
             call("correlation_distance_weighted_closeness")
-        self.queries["correlation_distance_weighted_average_path_length"] = \
-            call("correlation_distance_weighted_average_path_length")
+        self.queries["local_correlation_distance_weighted_vulnerability"] = \
+            call("local_correlation_distance_weighted_vulnerability")
         self.tol = {k: 1e-5 for k in self.queries}
         self.mutators = {"set_threshold": self.m_thr,
                          "set_link_density": self.m_rho,
@@ -491,6 +497,48 @@ class ClimateFamily(Family):
     def m_nl(self, o, m, arg):
         o.set_non_local(bool(arg))
         m["nl"] = bool(arg)
+
+
+class CoupledClimateFamily(ClimateFamily):
+    """CoupledClimateNetwork built from one similarity matrix over two
+    grids (the first n1 nodes form layer 1): the threshold / density /
+    non_local setters against the per-layer and cross-layer accessors."""
+    name = "CoupledClimateNetwork"
+
+    def __init__(self):
+        ClimateFamily.__init__(self)
+        for k in ("area_weighted_connectivity", "average_link_distance",
+                  "nsi_betweenness", "matching_index", "coreness"):
+            self.queries.pop(k, None)
+        for n in ("adjacency_1", "adjacency_2", "cross_layer_adjacency",
+                  "number_cross_layer_links", "number_internal_links",
+                  "cross_link_density", "internal_link_density",
+                  "cross_degree", "internal_degree",
+                  "cross_global_clustering", "cross_transitivity",
+                  "internal_global_clustering", "cross_local_clustering",
+                  "cross_path_lengths", "cross_closeness",
+                  "cross_betweenness", "similarity_measure_1",
+                  "cross_similarity_measure", "cross_average_path_length"):
+            self.queries[n] = call(n)
+            self.tol[n] = 1e-5
+
+    def init_model(self, case):
+        m = ClimateFamily.init_model(self, case)
+        m["n1"] = max(1, min(m["n"] - 1, int(case.get("n1", m["n"] // 2))))
+        return m
+
+    def build(self, m):
+        from pyunicorn.core import GeoGrid
+        from pyunicorn.climate import CoupledClimateNetwork
+        lat = np.array(m["lat"], dtype=float)
+        lon = np.array(m["lon"], dtype=float)
+        k = m["n1"]
+        g1 = GeoGrid(np.arange(2.0), lat[:k], lon[:k], silence_level=3)
+        g2 = GeoGrid(np.arange(2.0), lat[k:], lon[k:], silence_level=3)
+        return CoupledClimateNetwork(g1, g2, m["S"].copy(),
+                                     threshold=m["thr"], non_local=m["nl"],
+                                     node_weight_type=m["nwt"],
+                                     silence_level=3)
 
 
 class TsonisFamily(ClimateFamily):
@@ -1103,6 +1151,7 @@ def fam(name):
             "GeoNetwork": GeoFamily,
             "ClimateNetwork": ClimateFamily,
             "TsonisClimateNetwork": TsonisFamily,
+            "CoupledClimateNetwork": CoupledClimateFamily,
             "RecurrencePlot": lambda: RPFamily("RecurrencePlot"),
             "RecurrenceNetwork": lambda: RPFamily("RecurrenceNetwork"),
             "JointRecurrenceNetwork": JointFamily,
@@ -1239,6 +1288,20 @@ def climate_cases(draw):
             "lon": draw(lo), "thr": draw(thr), "nl": draw(st.booleans()),
             "nwt": draw(st.sampled_from([None, "surface", "irrigation"])),
             "ops": draw(ops_strategy("ClimateNetwork", margs))}
+
+
+@st.composite
+def coupled_climate_cases(draw):
+    case = draw(climate_cases())
+    n = len(case["lat"])
+    case["family"] = "CoupledClimateNetwork"
+    case["n1"] = draw(st.integers(1, n - 1))
+    thr = st.integers(0, 19).map(lambda k: k / 20.0 + 0.025)
+    margs = {"set_threshold": thr,
+             "set_link_density": st.integers(1, 9).map(lambda k: k / 10.0),
+             "set_non_local": st.booleans()}
+    case["ops"] = draw(ops_strategy("CoupledClimateNetwork", margs))
+    return case
 
 
 @st.composite
@@ -1426,6 +1489,7 @@ SUBCHECKS = [
     _sub("geo", geo_cases, (3, 100), (8, 1000)),
     _sub("climate", climate_cases, (4, 120), (8, 1200)),
     _sub("tsonis", tsonis_cases, (3, 60), (8, 600)),
+    _sub("coupled_climate", coupled_climate_cases, (3, 60), (8, 600)),
     _sub("recurrence_plot", lambda: rp_cases("RecurrencePlot"), (3, 120),
          (8, 1200)),
     _sub("recurrence_network", lambda: rp_cases("RecurrenceNetwork"),
